@@ -19,7 +19,7 @@ from . import common as C
 
 IMPORTS = "From LQ Require Import Core.Value Core.Syntax Core.Render."
 NEEDED = ["theories/Core/Value.v", "theories/Core/Syntax.v", "theories/Core/Render.v",
-          "theories/Proofs/Value_proofs.v", "theories/Proofs/Render_proofs.v", "theories/Proofs/Render_buffer.v"]
+          "theories/Proofs/Value_proofs.v", "theories/Proofs/Render_proofs.v", "theories/Proofs/Render_buffer.v", "theories/Proofs/Render_fuel.v"]
 
 LCLASSES = {
     "LiquidSyntaxError", "LiquidTypeError", "LiquidNameError", "LiquidValueError", "UndefinedError",
